@@ -11,6 +11,9 @@ pub fn number_alphabet() -> Vec<f64> {
     vec![
         0.0, -0.0, 5e-324, -2.2250738585072014e-308, 1.0, exact::succ(1.0), 0.1, -0.3333333333333333, 1e300, f64::MAX, -f64::MAX,
         // doubles that are exactly representable as f32 / f16 (binary formats may store them short) with long decimal expansions
+        // whole numbers at the boundaries of the integer types (writers with an integer fast path)
+        255.0, 256.0, -128.0, -129.0, 65535.0, 65536.0, -32769.0, 4294967295.0, 4294967296.0, -2147483648.0, -2147483649.0, -3e9, -4294967295.0,
+        9007199254740992.0, -9223372036854775808.0, 18446744073709551616.0,
         0.1f32 as f64, 1073741824.0, 7.888609052210118e-31, 65504.0, 5.960464477539063e-8, f32::MAX as f64, 1.401298464324817e-45, 16777216.0, -0.333251953125,
         f64::INFINITY, f64::NEG_INFINITY,
     ]
@@ -79,7 +82,22 @@ where
     Case {
         ty: format!("Piecewise<{ty}> with {pieces} segments"),
         n: pieces * (T::N + 1),
-        run: Box::new(|nums, fmt| { let v = pw_from_nums::<T>(nums); let r = guard(|| trip(&v, fmt)); finish(&v, r, nums, |b| pw_nums(b), fmt) }),
+        run: Box::new(|nums, fmt| {
+            let v = pw_from_nums::<T>(nums);
+            let r = guard(|| trip(&v, fmt));
+            finish(&v, r, nums, |b| pw_nums(b), fmt)?;
+            // the same value with allocation history that == cannot see: spare capacity from reserve / push growth
+            let mut w = pw_from_nums::<T>(nums);
+            w.segments.reserve(7);
+            let r = guard(|| trip(&w, fmt));
+            finish(&w, r, nums, |b| pw_nums(b), fmt).map_err(|(what, d)| (format!("{what} (segments vector with spare capacity)"), d))?;
+            let mut g = Piecewise { segments: Vec::new() };
+            for s in pw_from_nums::<T>(nums).segments {
+                g.segments.push(s);
+            }
+            let r = guard(|| trip(&g, fmt));
+            finish(&g, r, nums, |b| pw_nums(b), fmt).map_err(|(what, d)| (format!("{what} (segments vector grown by push)"), d))
+        }),
     }
 }
 
@@ -146,7 +164,7 @@ pub fn check(thorough: bool, _seed: u64) -> Check {
         }),
         classes: FORMATS.iter().map(|f| (*f, true)).collect(),
         bounds: json!({"types": "every serializable type (list under serde_types); Segment/Piecewise over Poly0, Poly3, Poly8, Log<Poly2>, IntOfLog<Poly1>, IntOfLogPoly4 with 0..4 segments",
-            "numbers": "alphabet {0.0,-0.0,5e-324,-2^-1022,1,succ(1),0.1,-1/3,1e300,MAX,-MAX, and the f32/f16-exact doubles 0.1f32,2^30,2^-100,65504,2^-24,f32::MAX,f32 min subnormal,2^24,-0.333251953125} (+-inf added for CBOR): full product for <=3 numbers; otherwise every position swept through the alphabet against two backgrounds, plus the cube over {-0.0,5e-324,MAX} on the first 8 (10 thorough) positions",
+            "numbers": "alphabet {whole numbers at the integer-type boundaries (255,256,-128,-129,65535,65536,-32769,2^32-1,2^32,-2^31,-2^31-1,-3e9,-(2^32-1),2^53,-2^63,2^64), 0.0,-0.0,5e-324,-2^-1022,1,succ(1),0.1,-1/3,1e300,MAX,-MAX, and the f32/f16-exact doubles 0.1f32,2^30,2^-100,65504,2^-24,f32::MAX,f32 min subnormal,2^24,-0.333251953125} (+-inf added for CBOR): full product for <=3 numbers; otherwise every position swept through the alphabet against two backgrounds, plus the cube over {-0.0,5e-324,MAX} on the first 8 (10 thorough) positions",
             "formats": FORMATS}),
     };
     // many segments (size thresholds of readers that pre-allocate / read in blocks)
